@@ -45,6 +45,16 @@ def generate(seed, tier="quick", mode=None, **kw):
         # an over-long md5 salt makes the file fail at that line today; consistency must hold for what was written
         cls_list = ["text", "text", "num", "hex", "t7", "md5", "md5-long", "md5-long", "j9p"]
     secrets = GC.gen_secrets(r, nid, classes=cls_list, words=o["words"] or (), variant_rate=(0.4 if mode == "c08" else 0.15))
+    if mode == "c08" and r.random() < 0.05:
+        # many secrets that differ only in an embedded AS number of the small private block, all of them listed
+        nums = r.sample(range(64512, 65535), 40)
+        o["as"] = [str(x) for x in nums]
+        secrets = {str(i): {"cls": "text", "a": "gw%d-ro-k%s" % (x, "xq"[i % 2]), "b": "gw%d-rw-k%s" % (x, "xq"[i % 2])}
+                   for i, x in enumerate(nums)}
+        nid = len(secrets)
+        as_embedded = True
+    else:
+        as_embedded = False
     if mode == "c07" and r.random() < 0.25:
         # world A hides a relation that world B lacks: the same plaintext behind two type-7 encodings (other salt
         # index) and in clear.  The tokens are pairwise distinct in both worlds, so the outputs must not differ.
@@ -114,6 +124,8 @@ def generate(seed, tier="quick", mode=None, **kw):
                         pc = {"j9p": "text", "j9p-num": "num", "j9p-hex": "hex", "j9p-l1": "text"}[secrets[str(s[2]["id"])]["cls"]]
                         if pc in _allowed(ln["tmpl"]):
                             s[2]["enc"] = "plain"
+                if r.random() < 0.012:
+                    ln = GC.long_pad(r, ln, secrets)    # a line longer than the default buffer size, cut inside its sensitive part
                 lines.append(ln)
             elif c < 0.80:
                 lines.append(G.lit_line(r.choice(G.BENIGN)))
@@ -130,6 +142,9 @@ def generate(seed, tier="quick", mode=None, **kw):
             elif c < 0.08:
                 ln["eol"] = "\r\n"
         files.append({"path": p, "lines": lines})
+    if as_embedded:
+        files[0]["lines"] = [GC.secret_line(r, ctx, secrets, kinds=("keep",), ident=i, templates=[
+            ("snmp-server community {} ro 1", G.ALL, "keep"), ("radius-server key {}", G.NOT_NUM, "keep")]) for i in sorted(secrets)]
     entry = r.choice(["cli", "cli", "files", "file", "io"])
     plan = {"family": NAME, "seed": seed, "mode": mode, "files": files, "dirs": dirs, "secrets": secrets, "opts": o,
             "entry": entry, "knobs": GC.gen_knobs(r), "faults": [], "pre": [],
